@@ -1,1 +1,41 @@
-fn main() {}
+//! desmon — runtime monitors for the simulator (`des`), one sub-command per property / level.
+
+mod evprog;
+mod rtprops;
+
+use serde_json::Value;
+use vcommon::Args;
+
+fn main() {
+    let args = Args::parse();
+    vcommon::quiet_panics();
+    if args.cmd == "noop" {
+        return;
+    }
+    if args.cmd == "replay" {
+        let path = args.replay.clone().expect("replay needs --replay <file>");
+        let text = std::fs::read_to_string(&path).expect("cannot read replay file");
+        let v: Value = serde_json::from_str(&text).expect("replay file is not JSON");
+        let case = v.get("case").unwrap_or(&v);
+        let sub = case.get("sub").and_then(Value::as_str).unwrap_or("").to_string();
+        let rc = match sub.as_str() {
+            "c02" | "c03rt" | "c10" | "c11" => rtprops::replay(case),
+            other => {
+                eprintln!("no replay for sub-command {other}");
+                2
+            }
+        };
+        std::process::exit(rc);
+    }
+    let rep = match args.cmd.as_str() {
+        "c02" => rtprops::cmd_c02(&args),
+        "c03rt" => rtprops::cmd_c03rt(&args),
+        "c10" => rtprops::cmd_c10(&args),
+        "c11" => rtprops::cmd_c11(&args),
+        other => {
+            eprintln!("unknown sub-command {other}");
+            std::process::exit(2);
+        }
+    };
+    rep.finish();
+}
